@@ -33,6 +33,20 @@ ErrRequired(e) == \/ e.kind = "none"                                     \* unkn
                   \/ (e.name \in Numeric /\ e.vclass # "num")             \* not a number
                   \/ (e.kind = "boolean" /\ e.vclass # "bool")            \* not a boolean
                   \/ (e.name \in {"Language", "LanguageAuto"} /\ e.langOk = 0)
+(* set_separators: DecimalSeparators / BlockSeparators are a function of Language and DecimalSeparator; they are recomputed when
+   DecimalSeparator changes, and when Language changes while DecimalSeparator was Auto.  DecimalSeparator = Custom (or anything
+   but Auto , .) leaves them to the caller, and so does Language = Auto with DecimalSeparator = Auto.
+   e.period: the language of e.after is in the list of decimal-point languages of prefs.rs; e.swiss: its country is ch or li. *)
+SeparatorsOwed(e) ==
+  /\ e.name \in {"DecimalSeparator", "Language"} /\ e.before[e.name] # e.after[e.name]
+  /\ (e.name = "DecimalSeparator" \/ e.before["DecimalSeparator"] = "Auto")
+  /\ e.after["DecimalSeparator"] \in {"Auto", ",", "."}
+  /\ ~(e.after["Language"] = "Auto" /\ e.after["DecimalSeparator"] = "Auto")
+SeparatorsRight(e) ==
+  LET ds == e.after["DecimalSeparator"]
+      usePeriod == ds = "." \/ (ds = "Auto" /\ e.period = 1)
+  IN /\ e.after["DecimalSeparators"] = (IF usePeriod THEN "." ELSE ",")
+     /\ e.after["BlockSeparators"] = (IF usePeriod THEN e.blockPeriod ELSE e.blockComma) \o (IF e.swiss = 1 THEN "'" ELSE "")
 Reason(e) ==
   IF e.k = "setmathml" THEN (IF Same(e.before, e.after) THEN "ok" ELSE "set_mathml-changed-a-preference")
   ELSE IF e.res \notin {"ok", "err"} THEN "no-answer-" \o e.res
@@ -40,6 +54,7 @@ Reason(e) ==
   ELSE IF e.res = "err" /\ ~Same(e.before, e.after) THEN "rejected-setting-changed-preferences"
   ELSE IF e.res = "ok" /\ e.after[e.name] # e.expect THEN "does-not-read-back-as-set"
   ELSE IF e.res = "ok" /\ ~SameExcept(e.before, e.after, Derived(e.name) \cup {e.name}) THEN "other-preference-changed"
+  ELSE IF e.res = "ok" /\ SeparatorsOwed(e) /\ ~SeparatorsRight(e) THEN "derived-separators-do-not-follow-the-setting"
   ELSE IF e.res = "err" /\ (e.spB # e.spA \/ e.brB # e.brA) THEN "rejected-setting-changed-output"
   ELSE IF e.res = "ok" /\ e.name \in BrailleOnly /\ e.spB # e.spA THEN "braille-preference-changed-speech"
   ELSE IF e.res = "ok" /\ e.name \in SpeechOnly /\ e.brB # e.brA THEN "speech-preference-changed-braille"
